@@ -36,6 +36,11 @@ CHECKS = {
         text="Every accepted input (SOME/IP message, SD message, SD entry, SD option) produced by a legal-but-non-canonical independent encoder and by mutating its output is decoded, re-encoded and decoded again; values must be equal with nothing left over, SOME/IP bytes identical, and kept information (unknown options, flags, protocol numbers, unreferenced options, raw indexes/counts) is compared through the independent decoder; the resolved path must not lose options.",
         note="Trusted: harness/wire.py. Rejected inputs are out of scope (C03).",
     ),
+    "C03": dict(
+        technique="property-based testing / structured fuzzing: mutation scripts over independently encoded messages into every decoder (totality + exception-type contract) and metamorphic twin runs of a live endpoint with and without the rejected input",
+        text="Arbitrary bytes and mutated (also non-canonical) SOME/IP/SD messages are handed to every decoder (outcome must be value+true suffix, ParseError, or UnicodeDecodeError only with a non-ASCII configuration string found by an independent walk); the same bytes are delivered, unicast and multicast, into a running discovery endpoint holding discovery/subscription/session state and into a SimpleService endpoint: the call must return, nothing may reach the loop's exception handler, a datagram of rejected messages only must leave state and traces untouched, and twin runs (with the junk / with only its accepted projection, unicast-flag-clear messages reduced to their header) must be observationally identical.",
+        note="Trusted: harness/wire.py (SOME/IP header classification), virtual loop. Exceptions the library logs and swallows inside its own tasks are not counted as escaping. The atheris campaign of the thorough tier is coverage-guided and only approximately reproducible.",
+    ),
 }
 ALL = ["C%02d" % i for i in range(1, 21)]
 NOT_APPLICABLE = {p: "check not built yet in this revision (in progress); the technique applies" for p in ALL if p not in CHECKS}
